@@ -50,6 +50,10 @@ type DagSpec struct {
 	RunLen  int      `json:"runLen,omitempty"`  // ticks a started run stays running (0: finishes at once)
 	History int      `json:"history,omitempty"` // 0 none, 1 older run, 2 run started in the very first tick's minute, 3 still running
 	Yml     bool     `json:"yml,omitempty"`
+	// NameField: 0 no `name:` in the file (the name is the file stem), 1 a name of its
+	// own, 2 the file stem of the NEXT DAG (ids are file stems; names are only labels)
+	NameField int `json:"nameField,omitempty"`
+	nameValue string
 }
 
 // FileEvent happens between two segments.
@@ -185,6 +189,7 @@ func gen(t *rapid.T) Case {
 		d.Susp = rapid.IntRange(0, 5).Draw(t, "susp") == 0
 		d.RunLen = rapid.SampledFrom([]int{0, 0, 0, 1, 2, 5}).Draw(t, "runLen")
 		d.History = rapid.IntRange(0, 3).Draw(t, "history")
+		d.NameField = rapid.SampledFrom([]int{0, 0, 1, 2}).Draw(t, "nameField")
 		c.Dags = append(c.Dags, d)
 		if i > 0 && rapid.IntRange(0, 4).Draw(t, "later") == 0 {
 			c.Later = append(c.Later, i)
@@ -242,6 +247,9 @@ func render(d *DagSpec) []byte {
 		return []byte("schedule: [\n  - \"* * * * *\"\nsteps: {{{\n")
 	}
 	def := yaml.MapSlice{}
+	if d.nameValue != "" {
+		def = append(def, yaml.MapItem{Key: "name", Value: d.nameValue})
+	}
 	start := d.Start
 	if d.Broken == 1 {
 		start = append([]string{"61 * * * *"}, start...)
@@ -604,6 +612,14 @@ func run(c Case) outcome {
 		return err == nil
 	}
 	for i := range c.Dags {
+		switch c.Dags[i].NameField {
+		case 1:
+			c.Dags[i].nameValue = "label-of-" + c.Dags[i].Name
+		case 2:
+			c.Dags[i].nameValue = c.Dags[(i+1)%len(c.Dags)].Name
+		}
+	}
+	for i := range c.Dags {
 		m := &mdag{}
 		m.install(c.Dags[i])
 		dags[i] = m
@@ -809,7 +825,17 @@ func run(c Case) outcome {
 					}
 				}
 				if kinds > 1 {
-					// start / stop / restart of one DAG in the same minute run concurrently: order unspecified
+					// start / stop / restart of one DAG in the same minute run concurrently: the
+					// order is unspecified, so starts and stops are not judged — but a restart
+					// schedule issues its restart at every matching minute whatever else is due
+					if (mRestart && gr != 1) || (!mRestart && gr > 0) {
+						out.msg = fmt.Sprintf("%s: %d restart(s) issued, expected %v (restart schedules %v; start match=%v stop match=%v in the same minute)", desc, gr, mRestart, m.exprs["restart"], mStart, mStop)
+						return out
+					}
+					if mStop && !mStart && !mRestart && ((running && gp != 1) || (!running && gp > 0)) {
+						out.msg = fmt.Sprintf("%s: %d stop(s) issued, running=%v", desc, gp, running)
+						return out
+					}
 					f.mu.Lock()
 					m.st = *f.state(n)
 					f.mu.Unlock()
